@@ -363,6 +363,21 @@ def m_unwrap(ex, st, callee, args):
     raise Inconclusive("%s on %r" % (callee, v))
 
 
+def m_opt_take(ex, st, callee, args):
+    """Option::take(&mut self): returns the value, leaves None behind"""
+    r = args[0]
+    if not isinstance(r, Ref):
+        raise Inconclusive("Option::take on non-reference")
+    v = ex.read(st, r.cell, r.path)
+    while isinstance(v, Ref):
+        r = v
+        v = ex.read(st, r.cell, r.path)
+    if not (isinstance(v, Adt) and v.ty == "Option"):
+        raise Inconclusive("Option::take on %r" % (v,))
+    ex.write(st, r.cell, r.path, NONE)
+    return [(None, v)]
+
+
 def m_unwrap_or(ex, st, callee, args):
     v = ex.deref(st, args[0]) if isinstance(args[0], Ref) else args[0]
     if isinstance(v, Adt) and v.ty == "Option":
@@ -912,6 +927,7 @@ def base_models():
     m.add(r"^(Option|std::option::Option|std::result::Result|Result)::<.*>::(unwrap|expect)$", m_unwrap)
     m.add(r"^(std::result::Result|Result)::<.*>::ok$", m_result_ok)
     m.add(r"^(Option|std::option::Option|std::result::Result|Result)::<.*>::unwrap_or$", m_unwrap_or)
+    m.add(r"^(Option|std::option::Option)::<.*>::take$", m_opt_take)
     m.add(r"^anyhow::__private::format_err$", m_opaque_error)
     m.add(r"^anyhow::Error::msg::<", m_opaque_error)
     m.add(r"^anyhow::error::<impl anyhow::Error>::msg::<", m_opaque_error)
